@@ -108,7 +108,10 @@ def main():
     P = PROPERTIES[prop]
     t0 = time.time()
     kanirun.sync_lock()
-    hs = [h for h, d in HARNESSES.items() if prop in d["props"] and (tier == "thorough" or d.get("tier", "quick") == "quick")]
+    def in_tier(d):
+        t = d.get("tiers", {}).get(prop, d.get("tier", "quick"))
+        return tier == "thorough" or t == "quick"
+    hs = [h for h, d in HARNESSES.items() if prop in d["props"] and in_tier(d)]
     if a.only:
         hs = [h for h in hs if h in a.only.split(",")]
     known = load_known()
